@@ -73,6 +73,13 @@ def execute(world, op, adopt=True, pre_hook=None):
     world.args = []
 
     def mk(spec):
+        G.CB.suspended = True
+        try:
+            return mk_(spec)
+        finally:
+            G.CB.suspended = False
+
+    def mk_(spec):
         if isinstance(spec, list) and spec and spec[0] == "elem":
             # the object currently stored at <attr>[i] of the receiver (aliasing an existing element)
             o = getattr(world.objs[t], spec[1])[spec[2]]
